@@ -337,8 +337,10 @@ Variable ops : path -> list value -> list value -> list opcode.
 Variable excl : path -> bool.
 Variable d : nat.
 Variable ip : bool.
-Hypothesis Hinj : forall a b, hatom a = hatom b -> a = b.
+Variable ok : atom -> bool.
+Hypothesis Hinj : forall a b, ok a = true -> ok b = true -> hatom a = hatom b -> a = b.
 Notation c := (mkCfg true 0 d ip).
+Notation guard := (inputs_ok any_atom ok).
 Notation diff := (diff hatom udiff ops noskip excl c).
 Notation spec := (spec udiff ip).
 Notation tv := (text_view 2).
@@ -393,66 +395,79 @@ Proof.
 Qed.
 
 (* sets: with an injective item hash the hash-based difference is the member difference *)
-Lemma hash_mem y xs : existsb (pystr_eqb (hatom y)) (map hatom xs) = member y xs.
+Lemma hash_mem y xs : ok y = true -> forallb ok xs = true ->
+  existsb (pystr_eqb (hatom y)) (map hatom xs) = member y xs.
 Proof.
-  unfold member. induction xs as [|x xs IH]; cbn; [reflexivity|]. rewrite IH. f_equal.
+  intros Oy. unfold member. induction xs as [|x xs IH]; cbn; intros O; [reflexivity|].
+  apply andb_true_iff in O as [Ox O]. rewrite (IH O). f_equal.
   destruct (atom_eqb y x) eqn:E.
   - apply atom_eqb_eq in E. subst. apply pystr_eqb_refl.
   - destruct (pystr_eqb (hatom y) (hatom x)) eqn:E2; [|reflexivity].
-    apply pystr_eqb_eq in E2. apply Hinj in E2. subst. rewrite atom_eqb_refl in E. discriminate.
+    apply pystr_eqb_eq in E2. apply (Hinj _ _ Oy Ox) in E2. subst. rewrite atom_eqb_refl in E. discriminate.
 Qed.
 
 Lemma first_per_hash_id l : forall s, NoDup l -> (forall a, In a l -> ~ In a s) ->
+  forallb ok l = true -> forallb ok s = true ->
   first_per_hash hatom l (map hatom s) = l.
 Proof.
-  induction l as [|a l IH]; intros s ND Dis; cbn; [reflexivity|].
-  inversion ND as [|a' l' Hnin ND']; subst.
-  rewrite hash_mem. unfold member.
+  induction l as [|a l IH]; intros s ND Dis Ol Os; cbn; [reflexivity|].
+  inversion ND as [|a' l' Hnin ND']; subst. cbn in Ol. apply andb_true_iff in Ol as [Oa Ol].
+  rewrite (hash_mem a s Oa Os). unfold member.
   destruct (existsb (atom_eqb a) s) eqn:E.
   - exfalso. apply existsb_exists in E as (b & Hb & Eb). apply atom_eqb_eq in Eb. subst.
     apply (Dis b); [left; reflexivity|exact Hb].
-  - f_equal. change (hatom a :: map hatom s) with (map hatom (a :: s)). apply IH; [exact ND'|].
+  - f_equal. change (hatom a :: map hatom s) with (map hatom (a :: s)). apply IH; [exact ND'| |exact Ol|cbn; rewrite Oa; exact Os].
     intros b Hb [Hs|Hs]; [subst; contradiction|]. apply (Dis b); [right; exact Hb|exact Hs].
 Qed.
 
 Lemma tv_diff_set xs ys p :
   nodup_atoms xs = true -> nodup_atoms ys = true ->
+  forallb ok xs = true -> forallb ok ys = true ->
   tv (diff_set hatom noskip xs ys p p) = spec_sets xs ys p.
 Proof.
-  intros N1 N2. unfold diff_set, spec_sets.
+  intros N1 N2 O1 O2. unfold diff_set, spec_sets.
   change (@nil pystr) with (map hatom []).
-  rewrite !first_per_hash_id by (try (apply nodup_atoms_NoDup; assumption); intros a _ []).
+  rewrite !first_per_hash_id by (try (apply nodup_atoms_NoDup; assumption); try assumption; try reflexivity; intros a _ []).
   rewrite text_view_app. unfold text_view. rewrite !flat_map_flat_map. f_equal.
-  - rewrite <- flat_map_if_filter. apply flat_map_ext_in'. intros y _. rewrite hash_mem.
+  - rewrite <- flat_map_if_filter. apply flat_map_ext_in'. intros y Hy.
+    rewrite hash_mem by (try assumption; eapply forallb_forall in O2; eassumption).
     destruct (member y xs); reflexivity.
-  - rewrite <- flat_map_if_filter. apply flat_map_ext_in'. intros x _. rewrite hash_mem.
+  - rewrite <- flat_map_if_filter. apply flat_map_ext_in'. intros x Hx.
+    rewrite hash_mem by (try assumption; eapply forallb_forall in O1; eassumption).
     destruct (member x ys); reflexivity.
 Qed.
 
 Definition IHS (t1 : value) : Prop :=
-  forall t2 p, wf t1 = true -> wf t2 = true -> tv (fst (diff t1 t2 p p)) = spec t1 t2 p.
+  forall t2 p, wf t1 = true -> wf t2 = true -> guard t1 = true -> guard t2 = true ->
+    tv (fst (diff t1 t2 p p)) = spec t1 t2 p.
 
 Lemma tv_go_list xs : Forall IHS xs -> forall ys i p,
   forallb wf xs = true -> forallb wf ys = true ->
+  forallb guard xs = true -> forallb guard ys = true ->
   tv (fst (go_list noskip diff p p xs ys i)) = spec_zip udiff ip p xs ys i.
 Proof.
-  induction 1 as [|x xs Hx _ IH]; intros ys i p W1 W2.
+  induction 1 as [|x xs Hx _ IH]; intros ys i p W1 W2 G1 G2.
   - rewrite go_list_nil. cbn [fst]. rewrite tv_added_from. destruct ys; reflexivity.
   - destruct ys as [|y ys].
     + rewrite go_list_cons_nil. cbn [fst]. rewrite tv_removed_from. reflexivity.
     + rewrite go_list_cons_cons. unfold app2. cbn [fst]. rewrite text_view_app.
-      cbn in W1, W2. apply andb_true_iff in W1 as [Wx W1], W2 as [Wy W2].
-      rewrite (Hx y (snoc p (PIdx i)) Wx Wy), (IH ys (S i) p W1 W2). reflexivity.
+      cbn in W1, W2, G1, G2.
+      apply andb_true_iff in W1 as [Wx W1], W2 as [Wy W2], G1 as [Gx G1], G2 as [Gy G2].
+      rewrite (Hx y (snoc p (PIdx i)) Wx Wy Gx Gy), (IH ys (S i) p W1 W2 G1 G2). reflexivity.
 Qed.
 
 Lemma tv_go_common kvs2 p :
   nodup_atoms (map fst kvs2) = true -> forallb (fun kv => wf (snd kv)) kvs2 = true ->
-  forall l, forallb (fun kv => wf (snd kv)) l = true -> Forall (fun kv => IHS (snd kv)) l ->
+  forallb (fun kv => any_atom (fst kv) && guard (snd kv)) kvs2 = true ->
+  forall l, forallb (fun kv => wf (snd kv)) l = true ->
+  forallb (fun kv => any_atom (fst kv) && guard (snd kv)) l = true ->
+  Forall (fun kv => IHS (snd kv)) l ->
   tv (fst (go_common c diff kvs2 (keys_of c kvs2) p p l)) = spec_common udiff ip kvs2 p l.
 Proof.
-  intros N2 W2. induction l as [|[k v1] l IH]; intros W1 HI; [reflexivity|].
-  apply Forall_cons_iff in HI as [Hk HI']. cbn in W1. apply andb_true_iff in W1 as [Wv W1].
-  specialize (IH W1 HI'). rewrite go_common_cons. cbn [spec_common].
+  intros N2 W2 G2. induction l as [|[k v1] l IH]; intros W1 G1 HI; [reflexivity|].
+  apply Forall_cons_iff in HI as [Hk HI']. cbn in W1, G1.
+  apply andb_true_iff in W1 as [Wv W1], G1 as [Gv G1].
+  specialize (IH W1 G1 HI'). rewrite go_common_cons. cbn [spec_common].
   rewrite keep_visible. destruct (visible ip k) eqn:Vk; [|exact IH].
   unfold keys_of. rewrite find_fst_filter.
   2:{ intros k' E. rewrite <- (keep_key_py_eq c k k' E), keep_visible. exact Vk. }
@@ -460,7 +475,9 @@ Proof.
   apply find_some in F as [Hin E]. cbn [fst] in E.
   rewrite (assoc_nodup kvs2 k' v2 k' N2 Hin (py_eq_refl k')).
   unfold app2. cbn [fst]. rewrite text_view_app. fold (keys_of c kvs2). rewrite IH. f_equal.
-  cbn in Hk. apply Hk; [exact Wv|]. eapply forallb_forall in W2; [|exact Hin]. exact W2.
+  cbn in Hk. apply Hk; [exact Wv| |exact Gv|].
+  - eapply forallb_forall in W2; [|exact Hin]. exact W2.
+  - eapply forallb_forall in G2; [|exact Hin]. exact G2.
 Qed.
 
 Lemma tv_dict_added kvs1 kvs2 p :
@@ -495,7 +512,7 @@ Qed.
 
 Theorem positional_diff_is_spec : forall t1, IHS t1.
 Proof.
-  induction t1 as [a|xs IH|xs IH|kvs IH|xs|xs] using value_ind'; intros t2 p W1 W2;
+  induction t1 as [a|xs IH|xs IH|kvs IH|xs|xs] using value_ind'; intros t2 p W1 W2 G1 G2;
     (match goal with |- context [diff ?t1 t2 _ _] => destruct (ty_eqb (type_of t1) (type_of t2)) eqn:T end;
      [|rewrite diff_type by (try reflexivity; exact T); rewrite spec_type by exact T; cbn [fst]; apply tv_report_type]);
     pose proof T as T'; apply ty_eqb_true in T'; destruct t2; try discriminate T'; try (destruct a; discriminate T').
@@ -508,20 +525,47 @@ Proof.
     cbn in W1, W2. apply andb_true_iff in W1 as [N1 W1], W2 as [N2 W2].
     rewrite spec_dict, !text_view_app, tv_dict_added, tv_dict_removed by assumption.
     rewrite tv_go_common by assumption. reflexivity.
-  - rewrite diff_vset by reflexivity. cbn [fst]. rewrite spec_vset. apply tv_diff_set; assumption.
-  - rewrite diff_vfrozen by reflexivity. cbn [fst]. rewrite spec_vfrozen. apply tv_diff_set; assumption.
+  - rewrite diff_vset by reflexivity. cbn [fst]. rewrite spec_vset. cbn in G1, G2. apply tv_diff_set; assumption.
+  - rewrite diff_vfrozen by reflexivity. cbn [fst]. rewrite spec_vfrozen. cbn in G1, G2. apply tv_diff_set; assumption.
 Qed.
 
-Theorem positional_run_is_spec t1 t2 :
-  wf t1 = true -> wf t2 = true ->
+Theorem positional_run_is_spec_guarded t1 t2 :
+  wf t1 = true -> wf t2 = true -> guard t1 = true -> guard t2 = true ->
   text_view 2 (fst (run_diff hatom udiff ops noskip excl c t1 t2)) = spec_diff udiff ip t1 t2.
 Proof.
-  intros W1 W2. rewrite fst_run_diff.
+  intros W1 W2 G1 G2. rewrite fst_run_diff.
   rewrite positional_mutual_id by (try assumption; try reflexivity; cbn; lia).
   apply positional_diff_is_spec; assumption.
 Qed.
 
 End Positional.
+
+(* an item hash that is injective everywhere: no guard on the inputs *)
+Theorem positional_run_is_spec hatom udiff ops excl d ip t1 t2 :
+  (forall a b, hatom a = hatom b -> a = b) ->
+  wf t1 = true -> wf t2 = true ->
+  text_view 2 (fst (run_diff hatom udiff ops noskip excl (mkCfg true 0 d ip) t1 t2)) = spec_diff udiff ip t1 t2.
+Proof.
+  intros Hinj W1 W2.
+  apply (positional_run_is_spec_guarded hatom udiff ops excl d ip any_atom); try assumption.
+  - intros a b _ _. apply Hinj.
+  - apply inputs_ok_true; reflexivity.
+  - apply inputs_ok_true; reflexivity.
+Qed.
+
+(* the model of the real item hash (memo-free DeepHash of a scalar, Hash/HashModel.v), for every
+   injective hasher H and options [plain]: injective on [tag_safe_atom] set members *)
+From DD Require Hash.HashModel Hash.HashProofsC07.
+Theorem positional_run_is_spec_deephash H o udiff ops excl d ip t1 t2 :
+  (forall s t, H s = H t -> s = t) -> HashModel.plain o = true ->
+  wf t1 = true -> wf t2 = true ->
+  inputs_ok any_atom HashModel.tag_safe_atom t1 = true -> inputs_ok any_atom HashModel.tag_safe_atom t2 = true ->
+  text_view 2 (fst (run_diff (HashModel.hash_atom H o) udiff ops noskip excl (mkCfg true 0 d ip) t1 t2)) = spec_diff udiff ip t1 t2.
+Proof.
+  intros HH Hp W1 W2 G1 G2.
+  apply (positional_run_is_spec_guarded (HashModel.hash_atom H o) udiff ops excl d ip HashModel.tag_safe_atom); try assumption.
+  intros a b Ta Tb E. eapply HashProofsC07.hash_atom_inj; eassumption.
+Qed.
 
 (* ------------------------------------------------------------------ *)
 (** * Witnesses *)
